@@ -321,7 +321,7 @@ class Gen:
         focus = getattr(self, 'focus', None)      # a focused model has two types of one kind, used apart
         self.focus_pair = None
         if focus == 'leaf':
-            a = self.leaf(r.choice(['date', 'date', 'time', 'datetime', 'Decimal']))
+            a = self.leaf(r.choice(['date', 'date', 'time', 'time', 'datetime', 'datetime', 'Decimal']))
             b = self.leaf(a['base'])
         elif focus:
             a, b = getattr(self, focus)(), getattr(self, focus)()
@@ -357,7 +357,7 @@ class Gen:
         fids = getattr(self, 'focus_ids', []) if focus else []
         spread = list(all_dcs)
         r.shuffle(spread)
-        both_patterned = r.random() < 0.6
+        both_patterned = r.random() < 0.75
         for tid in refs:
             forced = tid in fids
             if not forced and ('"%s"' % tid in used or r.random() < 0.15):
@@ -596,6 +596,7 @@ HOSTILE = HOSTILE_SYNTAX + ["a'b", 'a"b', 'a\\b', 'a{b}', 'a\nb', 'ünï', "'", 
            'a b', "it's \"q\"", '\\n', '$x', 'ключ', '日本', '\U0001f600', 'a\x7fb',
            'a\r\nb', '[0]', '#', "'''", '"""', '{o}', '{cls}', "\\'", '\\"', 'a\\', "');import os;('", 'o', 'cls',
            'field', '__tag__x', 'a%(b)s', '\\x41', '\\N{BULLET}', '\x01', 'x' * 70, '{{', '}}', "a''b", '`', 'é']
+HOSTILE = list(dict.fromkeys(HOSTILE))      # alias renamings must stay injective
 
 
 DERIVE = ['if_%s', 'skip_%s', 'skip_if_%s', 'default_%s', 'dflt_%s', 'tp_%s', 'parser_%s', '%s_0', '%s_1', '_%s',
@@ -1187,8 +1188,8 @@ def gen_cases(ctx):
     # focused models: two distinct types of ONE kind (NamedTuple, TypedDict, enum, leaf subclass of one
     # base - patterned with one pattern object or not), used in different classes / fields, then given ONE name
     for i in range(10 if ctx.tier == 'quick' else 60):
-        g = Gen(r, 'v1' if i % 5 else 'v0')
-        g.focus = ['leaf', 'namedtuple', 'typeddict', 'leaf', 'enum'][i % 5]
+        g = Gen(r, 'v0' if i % 5 == 4 else 'v1')
+        g.focus = ['leaf', 'namedtuple', 'leaf', 'typeddict', 'enum'][i % 5]
         spec = g.model()
         rens = [('types_same', make_renaming(r, spec, 'types_same', pair=g.focus_pair))]
         for fl in ('derived', r.choice(['strings', 'all'])):
